@@ -145,13 +145,13 @@ class PeekSlice(Terminal):
 
         pos = gen.new_temp("pos")
         gen.writeln(f"{pos} = state.pos")
+        gen.writeln(f"{matched_var} = True")
         peeked = gen.new_temp("peek")
         gen.writeln(f"for {peeked} in state.peek_slice({self.start}, {self.stop}):")
         with gen.block():
             gen.writeln(f"if state.input.startswith({peeked}, {pos}):")
             with gen.block():
                 gen.writeln(f"{pos} += len({peeked})")
-                gen.writeln(f"{matched_var} = True")
             gen.writeln("else:")
             with gen.block():
                 # TODO: test for failed PEEK slice
@@ -159,7 +159,9 @@ class PeekSlice(Terminal):
                 gen.writeln(f"state.fail({peeked})")
                 gen.writeln("break")
 
-        gen.writeln(f"state.pos = {pos}")
+        gen.writeln(f"if {matched_var}:")
+        with gen.block():
+            gen.writeln(f"state.pos = {pos}")
 
         gen.writeln("# </PeekSlice>")
 
